@@ -239,6 +239,8 @@ func (c *ChunkComposer) RunLoop(reader io.Reader, cb OnCompleteMessage) error {
 						return base.NewErrRtmpShortBuffer(int(aggregateStream.header.MsgLen), int(stream.msg.Len()), "parse rtmp aggregate sub message body")
 					}
 					aggregateStream.msg.buff = nazabytes.NewBufferRefBytes(stream.msg.buff.Peek(int(aggregateStream.header.MsgLen)))
+					// NewBufferRefBytes只持有内存块，写位置为0，需要标记这块内存为已写入的数据
+					aggregateStream.msg.Flush(aggregateStream.header.MsgLen)
 					stream.msg.Skip(aggregateStream.header.MsgLen)
 
 					// sub message回调给上层
